@@ -2,8 +2,20 @@
 from pyvc.specs import Registry
 
 
-def build_registry() -> Registry:
+def build_registry(world=None) -> Registry:
+    from pyvc.world import World
+    world = world or World()
     reg = Registry()
-    from . import c_utils
+    from . import c_utils, c_event, c_context, c_context_tables
     c_utils.register(reg)
+    c_event.register(reg)
+    c_context.register(reg)
+    c_context_tables.register(reg)
+    reg._signal_decls = reg._signal_decl_finder(world)
+    reg.world = world
+    import os
+    dis = [x for x in os.environ.get('PYVC_DISABLE_INV', '').split(',') if x]
+    if dis:
+        reg.invariants = [e for e in reg.invariants if not any(d in e[0] for d in dis)]
+        reg.guarantees = [e for e in reg.guarantees if not any(d in e[0] for d in dis)]
     return reg
